@@ -49,7 +49,7 @@ register("C01", "props.c01", ["ValidaProofs.C01"], 2500, 60000,
          "one case = one DSL-built leaf condition (class x constructor x arguments, mostly of the expected kind, 12% of any kind) "
          "filtered over one generated document; distinct = distinct (class, callable, outcome kind) triples seen, outcome kind in "
          "{some item true, callable false, callable error, pre-processor error}; non-trivial = the result is not constant over the document")
-register("C02", "props.c02", ["ValidaProofs.C02", "ValidaProofs.C02Spec"], 1500, 40000,
+register("C02", "props.c02", ["ValidaProofs.C02", "ValidaProofs.C02Spec", "ValidaProofs.Stateless"], 1500, 40000,
          "60% condition trees (depth<=3 quick / <=5 thorough; value-kind mixed with key- or index-kind; null operands in every "
          "position) filtered over a generated document, 40% object histories (2-9 constructions over shared operands, by operator "
          "and by class call, null operands, same-operator nesting); distinct = (depth, kinds, operators, some-true) resp. "
@@ -58,7 +58,7 @@ register("C03", "props.c03", ["ValidaProofs.C03", "ValidaProofs.C03Entry"], 1500
          "one case = a path of 0-4 (thorough 0-6) parts mixing primitive parts and map/list/map-or-list parts with key/index/value "
          "condition trees and labels, resolved on a document grown along the path (65%) or random (35%), through all entry points; "
          "distinct = (length, concrete?, none/one/many selected, modifiers) tuples; non-trivial = the selection is non-empty")
-register("C04", "props.c04", ["ValidaProofs.C04"], 1500, 40000,
+register("C04", "props.c04", ["ValidaProofs.C04", "ValidaProofs.C04Modifiers"], 1500, 40000,
          "as C03 plus a random datum modifier x multiplicity modifier applied in a random order; distinct = (length, concrete?, "
          "none/one/many, datum modifier, multiplicity modifier); non-trivial = the selection is non-empty")
 register("C05", "props.c05", ["ValidaProofs.C05", "ValidaProofs.C05Walk"], 1500, 40000,
@@ -75,7 +75,7 @@ register("C07", "props.c07", ["ValidaProofs.C07", "ValidaProofs.C07Casts"], 1000
 register("C15", "props.c15", ["ValidaProofs.C15", "ValidaProofs.C07Casts"], 1000, 25000,
          "half schema validations with 80% cast rules, half single rule tests with 90% cast rules, over documents holding castable and "
          "uncastable strings under keys of every type and list indices; distinct as C05/C06 tuples; non-trivial as there")
-register("C09", "props.c09", ["ValidaProofs.C09", "ValidaProofs.C09Spec"], 1500, 40000,
+register("C09", "props.c09", ["ValidaProofs.C09", "ValidaProofs.C09Spec", "ValidaProofs.Stateless"], 1500, 40000,
          "one case = a DSL term (every class x constructor pair twice, then random leaves and trees of depth<=3) and one spelling of "
          "its spec (letter case, type/dtype len/length in/in_ eq/equal_to aliases, list vs mapping arguments, type names / map / type "
          "objects); distinct = (class, callable) pairs; non-trivial = the term has at least one non-null leaf")
@@ -95,7 +95,7 @@ register("C13", "props.c13", ["ValidaProofs.C13", "ValidaProofs.C13Schema", "Val
          "one case = a schema of 0-4 rules in the serialisable fragment (C11 conditions, C12 paths, optional str->int / str->bool cast) "
          "through to_json_like, JSON text, from_json_like, compared by equality and by validating three documents; distinct = "
          "(#rules, casts?, longest path); non-trivial = at least one rule")
-register("C14", "props.c14", ["ValidaProofs.C14", "ValidaProofs.C14Behave", "ValidaProofs.C14Paths"], 2000, 50000,
+register("C14", "props.c14", ["ValidaProofs.C14", "ValidaProofs.C14Behave", "ValidaProofs.C14Paths", "ValidaProofs.Stateless"], 2000, 50000,
          "pairs (x, y) with y = x rebuilt, commuted or with one atom changed (argument, callable, class, operator, key, index, part "
          "kind, label, cast) for conditions, paths and rules, plus transitivity triples; distinct = (level, mutation kind); "
          "non-trivial = == returned")
@@ -111,12 +111,12 @@ register("C19", "props.c19", ["ValidaProofs.C19"], 2500, 60000,
          "45% one definite error injected into a well-formed condition / part / path / rule spec (unknown datum kind, pre-processor, "
          "callable, type name, suffix, part type, cast type, part argument; wrong arity / argument shape; several keys; missing "
          "field), 55% 1-3 random structural mutations; distinct = (parser, injected error class, outcome); non-trivial = rejected")
-register("C08", "props.c08", ["ValidaProofs.C08", "ValidaProofs.C08Threads"], 600, 12000,
+register("C08", "props.c08", ["ValidaProofs.C08", "ValidaProofs.C08Threads", "ValidaProofs.Stateless"], 600, 12000,
          "one case = a history of 3-8 (thorough 4-16) validate / test / get_data / filter calls over one shared schema (1-4 rules, "
          "40% casts, map-or-list parts with list / map conditions) and 1-3 shared documents, with identity-aware snapshots of "
          "every document, rule, path, part and condition after every call and each call repeated on freshly built objects; "
          "distinct = (#rules, #docs, #calls, casts?); non-trivial = at least three calls")
-register("C18", "props.c18", ["ValidaProofs.C18", "ValidaProofs.C05Walk"], 800, 20000,
+register("C18", "props.c18", ["ValidaProofs.C18", "ValidaProofs.C05Walk", "ValidaProofs.Stateless"], 800, 20000,
          "one case = schemas S (0-3 rules) and T (1-3 rules), T added to S under 1-3 distinct concrete roots, then a document with "
          "sub-documents at the roots validated with the extended S and compared with S plus T-at-root; T snapshot (identity-aware) "
          "after every addition; distinct = (#S rules, #T rules, #roots, valid); non-trivial = some rule tested")
